@@ -72,9 +72,10 @@ CLAIMS: dict[str, tuple[str, str, str, str]] = {
         "FULL on the model for: dict_roundtrip (from_dict(as_dict) = identity for both attribute formats, "
         "children converted or not, any nesting depth — mutual induction over the nested token type), "
         "tree_roundtrip (every successful SyntaxTreeNode build flattens to the identical sequence), "
-        "walkList_sublist (walk follows stream order). PARTIAL: render repeatability and 'round-tripped "
-        "token renders the same' are decided by the oracle on the implementation (theorem planned with the "
-        "renderer model); sibling/parent link consistency is by construction in the functional model and "
+        "walkList_sublist (walk follows stream order); render_repeatable (Props/C15b.lean, on the renderer model tied by `render` / `fullrender`): rendering a "
+        "stream again as the first render left it (image alt attributes written — the only write the renderer makes) gives the same output, for every "
+        "stream, render options and fence-language function: setAlt is idempotent and a token's neighbours enter renderToken only through type, tag, nesting, "
+        "hidden. PARTIAL: 'round-tripped token renders the same' is decided by the oracle on the implementation; sibling/parent link consistency is by construction in the functional model and "
         "checked on the implementation. Tie: dictrt/tree driver requests on parser-produced and damaged "
         "streams compared field by field.",
         NOTE + "meta values other than str are outside the model's Token.",
